@@ -6,12 +6,14 @@ import Sidetree.Json
 import Sidetree.Drv.Window
 import Sidetree.Drv.Hash
 import Sidetree.Drv.Patch
+import Sidetree.Drv.Compose
 
 open Sidetree
 
 def handlers : List (String × (Json → Json)) :=
   [("window", Drv.window), ("jcs", Drv.jcs), ("num", Drv.num), ("mh", Drv.mh), ("commit", Drv.commit),
-   ("validate", Drv.validate), ("origdoc", Drv.origdoc)]
+   ("validate", Drv.validate), ("origdoc", Drv.origdoc),
+   ("compose", Drv.compose), ("protect", Drv.protect), ("patchrt", Drv.patchrt)]
 
 def answer (line : String) : String :=
   let cs := line.toList
